@@ -375,8 +375,9 @@ def run(ctx):
     ]
     ctx.assumptions = [
         "join theorems are per input line read on its own (the line is not itself a continuation of a previous line)",
-        "directive equality is modulo white space after white space / `,` / `)` / `=` (squeeze), which ignores "
-        "character literals inside directives",
+        "directive equality is modulo white space next to white space or a non-word character (canon); the theorem "
+        "proves the finer squeeze-equality (only blanks after a blank or delimiter were inserted); character "
+        "literals inside directives are not treated specially",
     ]
     # --- 1. translator
     tr_err = None
@@ -401,7 +402,7 @@ def run(ctx):
     # --- 4. generated cases
     rng = ctx.rng("gen")
     g = Gen(rng)
-    ncases = ctx.pick(900, 20000)
+    ncases = ctx.pick(900, 12000)
     cases = []
     seen = set()
     corpus = HERE / "corpus" / "lines.txt"
@@ -449,7 +450,7 @@ def run(ctx):
             L, coq_s(ln), ("(Some %s)" % coq_sums(out_lines)) if st == "ok" else "None", pp,
             "true" if sf else "false", LT_IDX[lt]))
         # validation of the join spec against fparser (plain statement lines only)
-        if st == "ok" and wrapped and tag in ("statement", "charlit", "trailing_comment") and fp_cmp < ctx.pick(400, 4000) \
+        if st == "ok" and wrapped and tag in ("statement", "charlit", "trailing_comment") and fp_cmp < ctx.pick(400, 3000) \
                 and all(c == " " or not spec.is_ws(c) for c in ln):
             mine = spec.join(out_lines)
             fp = fparser_items(out_lines)
